@@ -590,7 +590,34 @@ def run_case(case, ctx):
             return fail("Raster.getCell returned None for a coordinate inside the extent", probe=p)
 
     nontrivial = ncol * nrow >= 2 and nobs >= 2 and interesting
-    return held(sig, nontrivial, sorted(cls))
+    res_ = held(sig, nontrivial, sorted(cls))
+    names_used = list(ORDER)
+
+    def again():
+        # the same collection, summarised again (and the first raster read again) after another case (another
+        # collection, another raster) was summarised in between
+        import tracklib.core.utils as U
+        from tracklib.algo.summarising import summarize
+        afs = ["uid" if a == "uid" else FN for a in names_used]
+        ops = [U.co_count if a == "uid" else getattr(U, a) for a in names_used]
+        r2 = M.call(summarize, col, afs, ops, tuple(case["res"]), case["margin"])
+        if M.is_raised(r2):
+            return {"what": "summarising the same collection again, after ANOTHER collection was summarised in between, "
+                            "raised", "raised": r2, "tracks": tracks if nobs < 100 else nobs}
+        for which, rr in (("the first raster, read again", raster), ("a second raster of the same collection", r2)):
+            for a in AGGS:
+                name = FN + "#" + a
+                g2 = rr.getAFMap(name).grid
+                for r in range(nrow):
+                    for c in range(ncol):
+                        if not M.feq(g2[r][c], grids[name][r][c], 1e-9, 1e-12):
+                            return {"what": "a band differs from what was judged before (%s, after ANOTHER collection was "
+                                            "summarised in between)" % which, "band": name, "cell": [c, r],
+                                    "judged_before": grids[name][r][c], "now": g2[r][c],
+                                    "tracks": tracks if nobs < 100 else nobs, "res": res, "margin": margin}
+        return None
+    res_["again"] = again
+    return res_
 
 
 def classify(case, witness):
